@@ -186,6 +186,11 @@ def _apply_directive(ex, d, node, st, txt):
         if pnames and pnames[0] == "self":
             if recv is None:
                 raise Unsupported("spec call without receiver", node)
+            if isinstance(recv.ty, T.Opt):
+                if not ex.spec:
+                    ex.oblige(st, "safety", f"none-call.{txt}@{node.lineno}", z3.Not(recv.terms[0]), node,
+                              "method call on None raises AttributeError")
+                recv = T.opt_inner(recv)
             binds["self"] = recv
             i = 1
         for a in args:
@@ -330,6 +335,7 @@ def expand_keys(names):
 
 
 def _havoc_key(ex, st, key):
+    ex.bump(st)
     sort = st.heap[key].sort() if key in st.heap else _key_sort(key)
     st.heap[key] = z3.Const(T.fresh_name("H!" + key), sort)
 
@@ -489,6 +495,15 @@ def _spec_form(ex, name, node, st):
         for a in node.args:
             args += T.opt_inner(ex.ev(a, st)).terms
         fn = z3.Function(name, *[a.sort() for a in args], ret.sorts()[0])
+        return V(ret, [fn(*args)])
+    if name in REG.opaque and name not in ex.c.reveal:
+        # opaque ghost function: uninterpreted in (arguments, heap version)
+        ret = REG.opaque[name]
+        args = []
+        for a in node.args:
+            args += ex.ev(a, st).terms
+        args.append(z3.IntVal(st.epoch))
+        fn = z3.Function("opq_" + name, *[a.sort() for a in args], ret.sorts()[0])
         return V(ret, [fn(*args)])
     if name in REG.ghost:
         params, src = REG.ghost[name]
